@@ -30,14 +30,20 @@ def _bounds(rows, d):
     b = np.full((len(rows), 2 * d), np.nan)
     for i, r in enumerate(rows):
         if r is not None:
-            b[i, :] = r
+            b[i, :] = [np.nan if v is None else v for v in r]
     return b
+
+
+def _defined(r):
+    """a row is a box only if every coordinate is defined; None = all-NaN row, a None inside = half-defined row
+    (e.g. a geometry with finite x but no finite y): both are 'undefined boxes' that must never be reported"""
+    return r is not None and all(v is not None for v in r)
 
 
 def _model(rows, d, q):
     inter, cover = [], []
     for i, r in enumerate(rows):
-        if r is None:
+        if not _defined(r):
             continue
         if all(r[k] <= q[d + k] and r[d + k] >= q[k] for k in range(d)):
             inter.append(i)
@@ -47,7 +53,7 @@ def _model(rows, d, q):
 
 
 def _model_total(rows, d):
-    fin = [r for r in rows if r is not None]
+    fin = [r for r in rows if _defined(r)]
     if not fin:
         return [NAN] * (2 * d)
     return [min(r[k] for r in fin) for k in range(d)] + [max(r[d + k] for r in fin) for k in range(d)]
@@ -56,7 +62,8 @@ def _model_total(rows, d):
 def _check_tree(B, tree, rows, d, queries, fails, tag):
     tb = lib(B + ['total_bounds'], lambda: tuple(tree.total_bounds))
     exp_tb = _model_total(rows, d)
-    if len(tb) != 2 * d or not model.same_row(tb, exp_tb):
+    half = any(r is not None and not _defined(r) for r in rows)
+    if len(tb) != 2 * d or (not half and not model.same_row(tb, exp_tb)):
         fails.append((B + ['total_bounds'] + (['nan-rows'] if any(r is None for r in rows) else []),
                       f'{tag} rows={rows} total_bounds={tb} expected={exp_tb}'))
     for q in queries:
@@ -64,13 +71,13 @@ def _check_tree(B, tree, rows, d, queries, fails, tag):
         got = np.asarray(lib(B + ['intersects'], tree.intersects, tuple(q)))
         gl = sorted(int(v) for v in got)
         if gl != I:
-            nanrow = any(rows[i] is None for i in gl if i < len(rows))
+            nanrow = any(not _defined(rows[i]) for i in gl if i < len(rows))
             what = 'duplicates' if len(set(gl)) != len(gl) else ('nan-row-reported' if nanrow else ('missing-rows' if set(I) - set(gl) else 'extra-rows'))
             fails.append((B + ['intersects', what], f'{tag} rows={rows} q={q} got={gl} expected={I}'))
         cov, ov = lib(B + ['covers_overlaps'], tree.covers_overlaps, tuple(q))
         cl, ol = sorted(int(v) for v in cov), sorted(int(v) for v in ov)
         if cl != C or ol != sorted(set(I) - set(C)):
-            nanrow = any(rows[i] is None for i in cl + ol if i < len(rows))
+            nanrow = any(not _defined(rows[i]) for i in cl + ol if i < len(rows))
             fails.append((B + ['covers_overlaps'] + (['nan-row-reported'] if nanrow else []),
                           f'{tag} rows={rows} q={q} covers={cl} overlaps={ol} expected covers={C} overlaps={sorted(set(I) - set(C))}'))
 
@@ -86,14 +93,16 @@ def evaluate(case):
     b = _bounds(rows, d)
     n = len(rows)
     labels = [f'd{d}', 'n0' if n == 0 else ('n1' if n == 1 else ('n<=8' if n <= 8 else 'n>8'))]
-    nt = any(r is None for r in rows)
+    nt = any(not _defined(r) for r in rows)
+    if any(r is not None and not _defined(r) for r in rows):
+        labels.append('half-defined-rows')
     if nt:
         labels.append('nan-rows')
         if all(r is None for r in rows) and rows:
             labels.append('all-nan')
     for q in queries:
         for r in rows:
-            if r is not None and any(r[k] == q[d + k] or r[d + k] == q[k] or r[k] == q[k] or r[d + k] == q[d + k] for k in range(d)):
+            if _defined(r) and any(r[k] == q[d + k] or r[d + k] == q[k] or r[k] == q[k] or r[d + k] == q[d + k] for k in range(d)):
                 nt = True
                 labels.append('tie')
                 break
@@ -108,7 +117,7 @@ def evaluate(case):
                 labels.append('pages-not-pow2')
         tree = lib(B + ['build'], HilbertRtree, b.copy(), p, ps)
         _check_tree(B, tree, rows, d, queries, fails, f'p={p} page_size={ps}')
-    if d == 2 and case.get('via_array') and rows:
+    if d == 2 and case.get('via_array') and rows and all(r is None or _defined(r) for r in rows):
         els = [None if r is None else [r[0], r[1], r[2], r[3]] for r in rows]
         if case['via_array'] == 'empty':
             els = [[] if e is None else e for e in els]
@@ -144,15 +153,22 @@ def _case(draw):
     for _ in range(n):
         if nan_mode == 'all' or (nan_mode == 'some' and draw(st.integers(0, 4)) == 0):
             rows.append(None)
+        elif nan_mode == 'some' and draw(st.integers(0, 5)) == 0:
+            # half-defined box: one axis undefined (both its lo and hi), the others finite
+            r = row()
+            k = draw(st.integers(0, d - 1))
+            r[k] = None
+            r[d + k] = None
+            rows.append(r)
         elif rows and draw(st.integers(0, 5)) == 0:
-            prev = [r for r in rows if r is not None]
+            prev = [r for r in rows if _defined(r)]
             rows.append(list(draw(st.sampled_from(prev))) if prev else row())
         else:
             rows.append(row())
     ps_choices = [1, 2, 3, 4, 5, 7, 8, 16, max(1, n - 1), max(1, n), n + 1, 2 * n + 1, 512]
     k = draw(st.integers(1, 3))
     configs = [[draw(st.integers(1, 31)), draw(st.one_of(st.sampled_from(ps_choices), st.integers(1, max(2, 2 * n))))] for _ in range(k)]
-    fin = [r for r in rows if r is not None]
+    fin = [r for r in rows if _defined(r)]
     qcoord = coord
     if not wide:
         qcoord = st.one_of(coord, coord.map(lambda v: v + 0.5), coord.map(lambda v: v - 0.5), st.just(-5), st.just(50))
